@@ -7,3 +7,4 @@ import BalmProofs.Props.C04
 #print axioms Balm.Props.C04.expandMinimal_inv
 #print axioms Balm.Props.C04.plain_history_inv
 #print axioms Balm.concrete_plain_history_inv
+#print axioms Balm.Impl.judgeStrict_sound
